@@ -443,6 +443,15 @@ impl<'p> CoroutinePool<'p> {
                 });
                 _ = CANCEL_TASKS.remove(&task_id);
                 warn!("Cancel task:{} successfully !", task_id);
+                // the task will never run: settle whoever waits for its result
+                if self.no_waits.contains(&task_id) {
+                    _ = self.no_waits.remove(&task_id);
+                } else {
+                    _ = self
+                        .results
+                        .insert(task_id, Err("The task has been cancelled"));
+                    self.notify(task_id);
+                }
                 return;
             }
             if let Some(co) = SchedulableCoroutine::current() {
